@@ -378,6 +378,13 @@ func diffKeys(before, after []string) []string {
 
 func keyClass(k string) string {
 	parts := strings.Split(k, "/")
+	if len(parts) > 2 && parts[0] == "namespaces" {
+		parts = append([]string{"namespaces", "#"}, parts[2:]...)
+		if len(parts) > 4 {
+			parts = parts[:4]
+		}
+		return strings.Join(parts, "/")
+	}
 	if len(parts) > 3 {
 		parts = parts[:3]
 	}
